@@ -39,6 +39,10 @@ def fields(line):
     return d
 
 
+def hd(tok):
+    return math.nan if tok == "nan" else vf.bits_dbl(int(tok, 16))
+
+
 def ulps(a, b):
     """distance in units in the last place between two finite doubles of the same sign"""
     ia, ib = vf.dbl_bits(a), vf.dbl_bits(b)
@@ -196,6 +200,19 @@ def unit_string(rng, toks):
     return s
 
 
+def unit_factor(table, toks):
+    """product of the parts (exponent 0 -> factor 1); ok=False when a partial product leaves the safe binary64 range"""
+    v, ok = 1.0, True
+    for nm, e in toks:
+        try:
+            v *= table[nm][0] ** e
+        except OverflowError:
+            return 0.0, False
+        if not (1e-250 < abs(v) < 1e250):
+            ok = False
+    return v, ok
+
+
 def unit_names_from_source():
     src = open(os.path.join(vf.REPO, "src/UnitConverter.hpp"), errors="replace").read()
     a = src.find("get_single_unit(std::string name)")
@@ -216,14 +233,30 @@ def build(ck):
     return ok1 and ok2, ok3
 
 
+def canon(lines):
+    """NaN results carry no comparable bit pattern (sign/payload differ between x86 and the OCaml runtime)"""
+    out = []
+    for l in lines:
+        if l[:2] in ("G ", "C ", "V "):
+            f = l.split()
+            for j in range(1, len(f)):
+                if len(f[j]) == 16 and re.fullmatch(r"[0-9a-f]{16}", f[j]):
+                    b = int(f[j], 16)
+                    if (b >> 52) & 0x7ff == 0x7ff and b & ((1 << 52) - 1):
+                        f[j] = "nan"
+            l = " ".join(f)
+        out.append(l)
+    return out
+
+
 def run_impl(ck, cmds, timeout=900):
     rc, out = vf.run_lines([os.path.join(ck.scratch, "impl"), os.path.join(ck.scratch, "param.tmp")], "\n".join(cmds) + "\n", timeout=timeout)
-    return rc, out
+    return rc, canon(out)
 
 
 def run_model(ck, cmds, timeout=900):
     rc, out = vf.run_lines([os.path.join(ck.scratch, "model")], "\n".join(cmds) + "\n", timeout=timeout)
-    return rc, out
+    return rc, canon(out)
 
 
 # ----------------------------------------------------------------------------
@@ -263,8 +296,8 @@ def val_close(a, b, rel):
     t = a[0]
     if t in "sib":
         return a == b
-    xs = [vf.bits_dbl(int(x, 16)) for x in a[1:].split("/")]
-    ys = [vf.bits_dbl(int(x, 16)) for x in b[1:].split("/")]
+    xs = [hd(x) for x in a[1:].split("/")]
+    ys = [hd(x) for x in b[1:].split("/")]
     for x, y in zip(xs, ys):
         if x != y and not (abs(x - y) <= rel * max(abs(x), abs(y))):
             return False
@@ -280,6 +313,12 @@ def oracle_Q(cmd, out):
     A = f["A"].split(",") if f["A"] != "-" else []
     if any(a in ("ERR", "EXC", "?") for a in A):
         return None, None                      # the queries themselves were not valid for this file
+    for a in A:
+        if a[0] in "dvpw":
+            for xh in a[1:].split("/"):
+                xv = abs(hd(xh))
+                if xv != 0.0 and not (1e-200 < xv < 1e200):
+                    return None, None          # SI value near the binary64 limits (std::stod throws on subnormals): out of scope
     if f.get("H") != "1":
         return "dump does not start with the time stamp comment", "header"
     empties = [k for k, _ in D if U.get(k, b"x") == b""]
@@ -405,7 +444,7 @@ def run(ck):
     for n, l in zip(names, out0[1:1 + len(names)]):
         f = l.split()
         if len(f) == 8:
-            table[n] = (vf.bits_dbl(int(f[1], 16)), [int(x) for x in f[2:]])
+            table[n] = (hd(f[1]), [int(x) for x in f[2:]])
         else:
             ck.breaks.append("unit name %r found in get_single_unit is rejected by the converter" % n)
     sinames = []
@@ -419,7 +458,7 @@ def run(ck):
         f = l.split()
         if len(f) == 8:
             sidims.append([int(x) for x in f[2:]])
-            if vf.bits_dbl(int(f[1], 16)) != 1.0:
+            if hd(f[1]) != 1.0:
                 violate("SI unit name %r of quantity %d does not have factor 1 (used-value dumps would not read back)" % (sinames[q], q),
                         {"cmd": cmds_si[q]}, {"kind": "si_name_factor", "q": q})
         else:
@@ -482,8 +521,9 @@ def run(ck):
             t1 = gen_unit_tokens(rng, table, [rng.below(3) - 1 for _ in range(4)] + [0, 0], allow_zero=False)
             t2 = gen_unit_tokens(rng, table, [rng.below(3) - 1 for _ in range(4)] + [0, 0], allow_zero=False)
             u1, u2 = unit_string(rng, t1).strip(), unit_string(rng, t2).strip()
+            okp = unit_factor(table, t1)[1] and unit_factor(table, t2)[1] and unit_factor(table, t1 + t2)[1]
             for u in (u1, u2, u1 + " " + u2):
-                cmds.append("G " + hx(u)); meta.append(("Gp", (u1, u2)))
+                cmds.append("G " + hx(u)); meta.append(("Gp", (u1, u2, okp)))
         elif mode == 4:             # exponents add / power zero
             nm = rng.choice(sorted(table))
             a, b = rng.choice([-3, -2, -1, 1, 2, 3]), rng.choice([-3, -2, -1, 1, 2, 3, 0])
@@ -558,7 +598,7 @@ def run(ck):
             q_hist[q] = q_hist.get(q, 0) + 1
             if len(f) == 3 and f[1] != "ERR":
                 x = meta[k][1][1]
-                si, back = vf.bits_dbl(int(f[1], 16)), vf.bits_dbl(int(f[2], 16))
+                si, back = hd(f[1]), hd(f[2])
                 direct = table and sidims[q] is not None
                 if math.isfinite(si) and 1e-280 < abs(si) < 1e280:
                     n_c_checked += 1
@@ -567,10 +607,9 @@ def run(ck):
                                 {"cmd": cmd, "x": x, "unit": meta[k][1][2]}, {"kind": "unit_si_roundtrip"})
                     # independent expectation: product of table factors (exponent 0 -> factor 1)
                     if len(meta[k][1]) == 4:
-                        exp = x
-                        for nm, e in meta[k][1][3]:
-                            exp *= table[nm][0] ** e
-                        if not (abs(si - exp) <= 1e-12 * abs(exp)):
+                        uf, okf = unit_factor(table, meta[k][1][3])
+                        exp = x * uf
+                        if okf and not (abs(si - exp) <= 1e-12 * abs(exp)):
                             zero = [nm for nm, e in meta[k][1][3] if e == 0 and table[nm][0] != 1.0]
                             violate("to_SI<%d>(%r, %r) = %r but the product of the parts is %r%s" % (q, x, meta[k][1][2], si, exp,
                                     " (unit %r with exponent 0 keeps its factor %r)" % (zero[0], table[zero[0]][0]) if zero else ""),
@@ -578,9 +617,9 @@ def run(ck):
         elif kind == "Gp" and k + 2 < len(out_i) and meta[k + 2][0] == "Gp" and (k == 0 or meta[k - 1] != meta[k]) :
             fa, fb, fc = out_i[k].split(), out_i[k + 1].split(), out_i[k + 2].split()
             if len(fa) == 8 and len(fb) == 8 and len(fc) == 8:
-                va, vb, vc = (vf.bits_dbl(int(z[1], 16)) for z in (fa, fb, fc))
+                va, vb, vc = (hd(z[1]) for z in (fa, fb, fc))
                 ea, eb, ec = ([int(t) for t in z[2:]] for z in (fa, fb, fc))
-                if math.isfinite(va * vb) and 1e-280 < abs(va * vb) < 1e280:
+                if meta[k][1][2] and math.isfinite(va * vb) and 1e-250 < abs(va * vb) < 1e250:
                     if ec != [p + r for p, r in zip(ea, eb)] or not (abs(vc - va * vb) <= 1e-13 * abs(vc)):
                         violate("compound unit is not the product of its parts: %r=%r, %r=%r, together %r" % (meta[k][1][0], va, meta[k][1][1], vb, vc),
                                 {"cmds": cmds[k:k + 3]}, {"kind": "unit_product"})
@@ -588,7 +627,7 @@ def run(ck):
             nm, a, b = meta[k][1]
             fa, fb, fc = out_i[k].split(), out_i[k + 1].split(), out_i[k + 2].split()
             if len(fa) == 8 and len(fb) == 8 and len(fc) == 8:
-                va, vb, vc = (vf.bits_dbl(int(z[1], 16)) for z in (fa, fb, fc))
+                va, vb, vc = (hd(z[1]) for z in (fa, fb, fc))
                 if math.isfinite(va * vb) and 1e-280 < abs(va * vb) < 1e280 and not (abs(vc - va * vb) <= 1e-13 * abs(vc)):
                     zero = (b == 0 or a + b == 0) and table[nm][0] != 1.0
                     violate("unit exponents do not add: %s^%d = %r, %s^%d = %r, %s^%d = %r%s" % (nm, a, va, nm, b, vb, nm, a + b, vc,
@@ -597,19 +636,17 @@ def run(ck):
             u = unhx(cmd.split()[1]).decode("latin-1")
             m = re.fullmatch(r"\s*(\w+)\^[+-]?0+\s*", u)
             f = out.split()
-            if m and len(f) == 8 and vf.bits_dbl(int(f[1], 16)) != 1.0:
-                violate("unit %r (exponent 0) converts with factor %r instead of 1" % (u, vf.bits_dbl(int(f[1], 16))), {"cmd": cmd, "unit": u}, {"kind": "unit_pow_zero"})
+            if m and len(f) == 8 and hd(f[1]) != 1.0:
+                violate("unit %r (exponent 0) converts with factor %r instead of 1" % (u, hd(f[1])), {"cmd": cmd, "unit": u}, {"kind": "unit_pow_zero"})
         elif kind == "V":
             f = out.split()
             if len(f) == 2 and f[1] != "ERR":
                 x, u1, u2, k1, k2 = meta[k][1]
-                y = vf.bits_dbl(int(f[1], 16))
-                exp = x
-                for nm, e in k1:
-                    exp *= table[nm][0] ** e
-                for nm, e in k2:
-                    exp /= table[nm][0] ** e
-                if math.isfinite(exp) and 1e-280 < abs(exp) < 1e280 and not (abs(y - exp) <= 1e-12 * abs(exp)):
+                y = hd(f[1])
+                f1, ok1 = unit_factor(table, k1)
+                f2, ok2 = unit_factor(table, k2)
+                exp = x * (f1 / f2) if ok1 and ok2 else 0.0
+                if ok1 and ok2 and 1e-250 < abs(f1 / f2) < 1e250 and 1e-250 < abs(exp) < 1e250 and not (abs(y - exp) <= 1e-12 * abs(exp)):
                     violate("convert(%r, %r, %r) = %r but the ratio of the products of the parts gives %r" % (x, u1, u2, y, exp),
                             {"cmd": cmd, "x": x, "from": u1, "to": u2, "expected": exp}, {"kind": "unit_convert"})
 
